@@ -149,6 +149,20 @@ where
 
     let rust_name = xml_name_to_rust_name(xml_name);
 
+    // an element and an attribute may share a name in XSD (and two names may differ only in case or punctuation):
+    // the fields of a struct may not; a later member gets a suffix, its XML name stays as it is
+    let mut fields = fields.clone();
+    let mut taken = std::collections::HashSet::new();
+    for field in &mut fields {
+        let base = field.rust_name.clone();
+        let mut n = 1;
+        while !taken.insert(field.rust_name.clone()) {
+            n += 1;
+            field.rust_name = if field.is_attribute && n == 2 { format!("{base}_attr") } else { format!("{base}_{n}") };
+        }
+    }
+    let fields = &fields;
+
     if let Some(comment) = comment {
         // one doc line per line of text; a carriage return may not appear inside a doc comment
         for line in comment.lines() {
